@@ -84,6 +84,8 @@ def _row_of(v):
         ints = [x for x in v[2:] if isinstance(x, int)]
         if len(ints) == 1:
             return ints[0]
+    if isinstance(v, tuple) and len(v) == 4 and v[0] == "op" and v[1] == "Sub" and isinstance(v[2], int) and not isinstance(v[3], int):
+        return v[2]           # row - zeros(...)
     return None
 
 
